@@ -348,6 +348,17 @@ def run(ctx: Ctx) -> RuleResult:
             fd.props = ['C07']
     for ob in res.obligations:
         ob.setdefault('props', ['C07'])
+    # the width that orders terminals is measured on the same (category-substituted) expression the fallback compiles
+    grw = repo.func('lark.utils:get_regexp_width')
+    parsed = [c for c in grw.body_nodes() if isinstance(c, ast.Call) and norm(c.func).endswith('.parse') and c.args]
+    compiled = [c for c in grw.body_nodes() if isinstance(c, ast.Call) and norm(c.func).endswith('.compile') and c.args]
+    ok = len(parsed) == 1 and len(compiled) >= 1 and all(norm(c.args[0]) == norm(parsed[0].args[0]) for c in compiled) \
+        and isinstance(parsed[0].args[0], ast.Name) and parsed[0].args[0].id not in grw.positional_names()
+    res.ob('%s %s' % (grw.loc(), grw.qual), 'get_regexp_width measures the substituted expression (the one its fallback compiles)', ok)
+    if not ok:
+        res.finding(grw, parsed[0] if parsed else grw.node, 'get_regexp_width measures %s but compiles %s: with Unicode categories (regex module) '
+                    'the width is wrong, and width is the second precedence key' % (
+                        norm(parsed[0].args[0]) if parsed else '?', [norm(c.args[0]) for c in compiled]), construct='width-expr')
     return res
 
 
